@@ -173,6 +173,12 @@ def validAttrs (sch : Schema) (decls : List AttrDecl) (attrs : List (String × S
   decls.all (fun d => !d.required || attrs.any (fun a => a.1 == d.name)) &&
   (attrs.map (·.1)).eraseDups.length == attrs.length
 
+/-- no text, or white space only -/
+def isBlank (t : Option String) : Bool :=
+  match t with
+  | none => true
+  | some s => s.toList.all fun c => c == ' ' || c == '\n' || c == '\t' || c == '\r'
+
 mutual
 /-- is `e` a valid element of type `ty`? -/
 def validElem (fuel : Nat) (sch : Schema) (ty : String) (e : Elem) : Bool :=
@@ -185,7 +191,8 @@ def validElem (fuel : Nat) (sch : Schema) (ty : String) (e : Elem) : Bool :=
     | some (.simpleContent base attrs) =>
       e.children.isEmpty && validAttrs sch attrs e.attrs && validText sch base ((e.text).getD "")
     | some (.complex p attrs) =>
-      validAttrs sch attrs e.attrs && (match matchParticle fuel sch p e.children with
+      -- element-only content: no character data other than white space
+      isBlank e.text && validAttrs sch attrs e.attrs && (match matchParticle fuel sch p e.children with
         | some [] => true
         | _ => false)
     | none => e.children.isEmpty && e.attrs.isEmpty && validSimple (.base ty) ((e.text).getD "")
